@@ -48,6 +48,11 @@ def pick_vars(rng, lo=1, hi=4):
     vs = base[:n] if rng.random() < 0.5 else pool[:n]
     if rng.random() < 0.5:
         vs[rng.randrange(n)] = rng.choice(SPACE_VARS)      # a name with a space
+    if n >= 2 and rng.random() < 0.2:
+        # one variable's name is another's plus a word: their node names interleave in sorted order
+        # ('X' < 'X a' < 'X a lag(n=1)' < 'X lag(n=1)')
+        i, j = rng.sample(range(n), 2)
+        vs[j] = vs[i] + rng.choice([' a', ' index', ' 2'])
     out = []
     for v in vs:
         if v not in out:
@@ -259,17 +264,65 @@ def gen_inconsistent(rng, end0=False):
 def build(case):
     g = impl.new_graph('ts', case.get('gmeta') or None)
     rejected = 0
-    for op in case['ops']:
+    hk = int(hashlib.sha1(repr(case['ops'])[:2000].encode()).hexdigest(), 16)
+    for i, op in enumerate(case['ops']):
+        if (hk >> (i % 60)) & 3 == 0:
+            probe_before_create(g, op)
         if impl.apply_op(g, op) != 'ok':
             rejected += 1
     # state-preserving interactions (see harness/gen.py): rejected edges, partially failing bulk adders, detours through
     # a mixed state, abused exports, look-ups of absent things - the derived graphs must not notice any of them
     from harness import gen as _gen
     key = ('ts', repr(case['ops'])[:2000])
+    inplace_touch(g, key)
     if all(len(op) < 6 or op[5] for op in case['ops'] if op[0] == 'add_edge'):      # validated builds only
         _gen.stress(g, key)
+        g = _gen.reroute(g, key)[0]
     _gen.query_noise(g, key)
     return g, rejected
+
+
+def probe_before_create(g, op):
+    """read-only look-ups that mention what the next call is about to create (its node names, its variable, its lag),
+    with the memoised answers taken right after: asking about something absent must not change what happens once it exists"""
+    names = [x if isinstance(x, str) else x.get('id') for x in op[1:3] if isinstance(x, (str, dict))]
+    for nm in names:
+        if not isinstance(nm, str):
+            continue
+        v, k = own_parse(nm)
+        for f in (lambda: g.get_nodes_for_variable_name(v), lambda: g.get_nodes_at_lag(k), lambda: g.node_exists(nm),
+                  lambda: g.get_edges(source=nm), lambda: g.get_edges(destination=nm),
+                  lambda: g.edge_exists(nm, names[0]), lambda: g.edge_exists(names[-1], nm), lambda: g.variables,
+                  g.is_minimal_graph, g.is_dag, lambda: g.get_contemporaneous_nodes(nm)):
+            try:
+                f()
+            except Exception:  # noqa: BLE001
+                pass
+
+
+def inplace_touch(g, key):
+    """deterministic in `key`: one or two nodes get, through an in-place `replace_node`, exactly the variable type and
+    user metadata they already have -- handed in as a dictionary whose reserved entries (`time_lag`, `variable_name`) were
+    copied from ANOTHER node, as happens when a caller clones a sibling's metadata.  The node keeps its own variable and
+    lag (they follow the identifier), so on the unchanged code this is the identity."""
+    h = int(hashlib.sha1(repr(('touch', key)).encode()).hexdigest(), 16)
+    if h % 3:
+        return
+    try:
+        nodes = g.get_nodes()
+        if len(nodes) < 2:
+            return
+        for k in range(1 + h // 3 % 2):
+            n = nodes[(h // 5 + k) % len(nodes)]
+            other = nodes[(h // 7 + 3 * k + 1) % len(nodes)]
+            if other.identifier == n.identifier:
+                other = nodes[(h // 7 + 3 * k + 2) % len(nodes)]
+            meta = dict(n.meta)
+            meta['time_lag'] = other.meta.get('time_lag')
+            meta['variable_name'] = other.meta.get('variable_name')
+            g.replace_node(n.identifier, variable_type=n.variable_type, meta=meta)
+    except Exception:  # noqa: BLE001 - a broken implementation shows in what the lanes observe afterwards
+        pass
 
 
 def index_order(g):
@@ -543,6 +596,33 @@ def shape_diff(what, got, want):
     return [f'{what}: extra nodes {sorted(gn - wn)[:4]} missing nodes {sorted(wn - gn)[:4]} '
             f'extra edges {sorted(set(ge.items()) - set(we.items()))[:3]} '
             f'missing edges {sorted(set(we.items()) - set(ge.items()))[:3]}']
+
+
+_OWN = re.compile(r'^(.*) (lag|future)\(n=(\d+)\)$', re.S)
+
+
+def own_parse(name):
+    """(variable, lag) as the identifier spells it -- the lane's own reading, for canonical names only"""
+    m = _OWN.match(name)
+    if not m:
+        return name, 0
+    return m.group(1), (-1 if m.group(2) == 'lag' else 1) * int(m.group(3))
+
+
+def coherence_failures(g):
+    """a node whose identifier is canonical (identifier == fmt(v, k) for a marker-free v, by the lane's own reading)
+    must report exactly that variable and lag: every construction sequence the lanes use leaves it so on the unchanged
+    code, and an input whose nodes misreport themselves would otherwise be waved through as 'out of domain'"""
+    try:
+        for n in g.get_nodes():
+            v, k = own_parse(n.identifier)
+            if v and not _MARKER.search(v) and fmt(v, k) == n.identifier:
+                if (n.variable_name, n.time_lag) != (v, k):
+                    return [f'coherence: after construction node {n.identifier!r} reports ({n.variable_name!r}, '
+                            f'{n.time_lag}), its identifier spells ({v!r}, {k})']
+    except Exception as e:  # noqa: BLE001
+        return [f'coherence: reading the nodes after construction raised {type(e).__name__}']
+    return []
 
 
 def in_domain(g):
